@@ -232,7 +232,8 @@ class AppGen:
                         n_items = min(n_items, 8)
                     for _ in range(n_items):
                         if route not in (4, 5) and r.random() < p.preset_p:
-                            kind = r.choice(["cardinal", "cardinal", "bidir", "stick"]) if pads_used else r.choice(["cardinal", "bidir"])
+                            kind = r.choice(["cardinal", "cardinal", "bidir", "stick", "wasd", "dpad"]) if pads_used else \
+                                r.choice(["cardinal", "bidir", "wasd"])
                             def km():
                                 rr = r.random()
                                 if rr < p.rich_field_p:
@@ -255,7 +256,15 @@ class AppGen:
                                 m = r.choice([0, 0] + p.mask_choices[:2]) if r.random() < p.modmask_p else 0
                                 self.bound_inputs.append(f"key {k} {m}")
                                 return (f"y{k}:{m}" if rr < p.rich_field_p else f"{k}:{m}")
-                            if kind == "cardinal":
+                            if kind == "wasd":        # the named constructors of the crate
+                                for k in (16, 3, 17, 0):
+                                    self.bound_inputs.append(f"key {k} 0")
+                                lines.append("preset wasd")
+                            elif kind == "dpad":
+                                for b in (4, 5, 6, 7):
+                                    self.bound_inputs.append(f"padbtn {b}")
+                                lines.append("preset dpad")
+                            elif kind == "cardinal":
                                 lines.append("preset cardinal " + " ".join(km() for _ in range(4)))
                             elif kind == "bidir":
                                 lines.append("preset bidir " + " ".join(km() for _ in range(2)))
